@@ -2,6 +2,7 @@
 //! usage: vreplay <scenario> key=value ...     output: key=value lines on stdout
 use std::collections::HashMap;
 
+mod auth;
 mod cluster;
 mod life;
 mod mailbox;
@@ -74,6 +75,8 @@ fn main() {
         "select_rws" => select::rws(&args),
         "supervision" => supervision::run(&args),
         "typegate" => mailbox::typegate(&args),
+        "auth_fsm" => auth::fsm(&args),
+        "auth_session" => auth::session(&args),
         "elect" => cluster::elect(&args),
         "elect_search" => cluster::elect_search(&args),
         "frame_len" => cluster::frame_len(&args),
